@@ -344,7 +344,7 @@ func TestProp(t *testing.T) {
 		if skip {
 			continue
 		}
-		specs := buildSpecs(sm.prov)
+		specs := buildSpecs(sm.prov, env.Thorough())
 		rep.Extra("structural_cases_"+sm.prov, len(specs))
 		wg.Add(1)
 		go func() {
